@@ -231,14 +231,18 @@ def run(ctx):
                     items.append((d, d.ast.value))
         else:
             items.append((n_, tgt))
+    # names used by the function itself (so that renaming locals does not matter)
+    what_param = rw.params[3] if len(rw.params) > 3 else "what"
+    loop_vars = [norm(lp.target) for lp in ast.walk(rw.node) if isinstance(lp, ast.For)]
+    pn = loop_vars[0] if loop_vars else "parameter_name"
     for n_, expr in items:
         roots, idx = table_path(n_, expr)
         conds = rc.conditions(n_)
-        if cond_holds(conds, "what == 'value'", True) and cond_holds(conds, "self_.self is not None", True):
-            if roots and all(ctx.facts.field_of(r, {}) == "private.watchers" for r in roots) and idx == ["parameter_name", "what"]:
+        if cond_holds(conds, "%s == 'value'" % what_param, True) and cond_holds(conds, "self_.self is not None", True):
+            if roots and all(ctx.facts.field_of(r, {}) == "private.watchers" for r in roots) and idx == [pn, what_param]:
                 inst_ok = True
         else:
-            if roots and all(norm(r) == "self_[parameter_name].watchers" for r in roots) and idx == ["what"]:
+            if roots and all(norm(r) == "self_[%s].watchers" % pn for r in roots) and idx == [what_param]:
                 cls_ok = True
     srd = [a for a in ast.walk(f.node) if isinstance(a, ast.Subscript) and ctx.facts.field_of(a.value, aliases) == "private.watchers" and norm(a.slice) == "name"]
     get_value = any(isinstance(c, ast.Call) and isinstance(c.func, ast.Attribute) and c.func.attr == "get" and c.args and norm(c.args[0]) in ("'value'",)
